@@ -209,25 +209,29 @@ structure JoinResult (α : Type) where
   rvs : RVs α
   named : List (α × α × α)   -- (new symbol, M[row,row], M[col,col]) = cov_to_params
 
+/-- The matrix of the joined block (`M` after the `fill` / `name_template` loops), the
+    `cov_to_params` entries, and whether every needed `param_names[...]` existed. -/
+def joinMatrix (joined : RVs α) (f : Fill α) : List (List α) × List (α × α × α) × Bool :=
+  let M := (calcCov joined).2.1
+  match f with
+  | .value fill => if fill ≠ 0 then (fillMat fill M, [], true) else (M, [], true)
+  | .template nm =>
+    let n := nrvs joined
+    let r := nameMat nm n (calcMat joined)
+    (tabulate n r.1, r.2.map (fun rc => ((nm rc.2 rc.1).getD 0, ent M rc.1 rc.1, ent M rc.2 rc.2)),
+     r.2.all fun rc => (nm rc.2 rc.1).isSome)
+
 /-- `RandomVariables.join(inds, fill, name_template, param_names)`. -/
 def join (rvs : RVs α) (inds : List String) (f : Fill α) : Except Err (JoinResult α) :=
   if inds.any (fun a => !(names rvs).contains a) then .error .keyError else
   let joined := getitem rvs inds
-  let (means, M, nms) := calcCov joined
-  let n := nrvs joined
-  let (M', named, ok) : List (List α) × List (α × α × α) × Bool :=
-    match f with
-    | .value fill => if fill ≠ 0 then (fillMat fill M, [], true) else (M, [], true)
-    | .template nm =>
-      let r := nameMat nm n (calcMat joined)
-      (tabulate n r.1, r.2.map (fun rc => ((nm rc.2 rc.1).getD 0, ent M rc.1 rc.1, ent M rc.2 rc.2)),
-       r.2.all fun rc => (nm rc.2 rc.1).isSome)
-  if !ok then .error .indexError else
+  let jm := joinMatrix joined f
+  if !jm.2.2 then .error .indexError else
   match joined with
   | [] => .error .indexError
   | j0 :: _ =>
-    let jd : Dist α := ⟨nms, j0.level, true, means, M'⟩
-    .ok ⟨placeJoined inds jd (unjoin rvs inds) true, named⟩
+    let jd : Dist α := ⟨(calcCov joined).2.2, j0.level, true, (calcCov joined).1, jm.1⟩
+    .ok ⟨placeJoined inds jd (unjoin rvs inds) true, jm.2.1⟩
 
 /-! ### subs -/
 
